@@ -116,6 +116,9 @@ def gen_scenario(rng, i, lay):
     else:
         if which < 0.45:
             sc["fault1"] = gen_fault(rng, URIS, uri)
+        sc["reg_mode"] = rng.choice(["plain", "plain", "prefix", "decorated", "decorated_prefix", "pattern"])
+        if sc["reg_mode"] == "pattern":
+            sc["detail_uri"] = True
         if kind == "call":
             ra, rk = payload(rng, allow_dt=dt)
             if rng.random() < 0.4:
@@ -158,6 +161,11 @@ def exhaustive_scenarios(ck, lay):
                 out.append(dict(base, kind="pubsub", uri="com.myapp.secret.topic", detail_uri=du,
                                 fault1={"t": "swap", "uri": "com.myapp.topic1"}, handlers=[False, False, True]))
             out.append(dict(base, kind="call", uri="com.myapp.proc1", fault1=fa, result={"args": [7], "kwargs": None, "progress": False}))
+            for mode in ("prefix", "decorated", "decorated_prefix", "pattern"):
+                out.append(dict(base, kind="call", uri="com.myapp.secret.proc", reg_mode=mode, detail_uri=(mode == "pattern"),
+                                result={"args": [7], "kwargs": None, "progress": False}))
+                out.append(dict(base, kind="call", uri="com.myapp.secret.proc", reg_mode=mode, detail_uri=(mode == "pattern"),
+                                fault1={"t": "swap", "uri": "com.myapp.proc1"}, result={"args": [7], "kwargs": None, "progress": False}))
             out.append(dict(base, kind="call", uri="com.myapp.proc1", fault2=fa, result={"args": [7, 9], "kwargs": [["a", 6]], "progress": False}))
             out.append(dict(base, kind="call", uri="com.myapp.proc1", fault2=fa, result={"args": [7], "kwargs": None, "progress": True}))
             out.append(dict(base, kind="error", uri="com.myapp.proc1", fault2=fa,
@@ -279,7 +287,8 @@ def history_terms(sc, legs):
         if leg["leg"] == "publish_event":
             l = "(LPublishEvent %s %s %s %s %s NoFault false [%s])" % (S, R, cstr(uri), clist(cval(a) for a in args), ckw(kwargs), cN(1))
         elif leg["leg"] == "call_invocation":
-            l = "(LCallInvocation %s %s %s %s %s NoFault)" % (S, R, cstr(uri), clist(cval(a) for a in args), ckw(kwargs))
+            l = "(LCallInvocation %s %s %s %s %s NoFault %s)" % (S, R, cstr(uri), clist(cval(a) for a in args), ckw(kwargs),
+                                                                creg_mode("plain", uri, False))
         elif leg["leg"] == "yield_result":
             l = "(LYieldResult %s %s %s %s false %s %s NoFault)" % (
                 S, R, cstr(uri), "true" if leg["call_encrypted"] else "false", clist(cval(a) for a in args), copt(kwargs, ckw))
@@ -399,6 +408,16 @@ def creg(sc):
             clist("(%s, %s)" % (cN(10 + i), CKIND[c]) for i, (_, c) in enumerate(reg)))
 
 
+def creg_mode(mode, env_uri, detail):
+    """how the callee registered env_uri -> the model's (prefix, name, procedure detail present)"""
+    cut = env_uri.rfind(".") + 1
+    if mode in ("prefix", "decorated_prefix"):
+        return "(Some %s) %s %s" % (cstr(env_uri[:cut]), cstr(env_uri[cut:]), "true" if detail else "false")
+    if mode == "pattern":                       # registered URI is the prefix; the router's detail names the procedure
+        return "None %s true" % cstr(env_uri[:cut])
+    return "None %s %s" % (cstr(env_uri), "true" if detail else "false")
+
+
 def cout(o):
     if o[0] == "invoked": return "(XInvoked %s %s)" % (clist(cval(a) for a in o[1]), ckw(o[2]))
     if o[0] == "class": return "(XClass %s %s %s)" % (cN(o[1]), clist(cval(a) for a in o[2]), ckw(o[3]))
@@ -430,7 +449,10 @@ def leg_terms(sc, legs):
                 "true" if sc.get("detail_uri") else "false", clist(cN(i) for i in range(1, len(sc.get("handlers") or [False]) + 1)))
         elif leg["leg"] == "call_invocation":
             call_enc = leg["encrypted"]
-            l = "(LCallInvocation %s %s %s %s %s %s)" % (A, B, cstr(sc["uri"]), clist(cval(a) for a in sc["args"]), ckw(sc["kwargs"]), cfault(sc["fault1"]))
+            f1 = sc["fault1"]
+            env_uri = f1["uri"] if f1 and f1["t"] == "swap" else sc["uri"]
+            l = "(LCallInvocation %s %s %s %s %s %s %s)" % (A, B, cstr(sc["uri"]), clist(cval(a) for a in sc["args"]), ckw(sc["kwargs"]),
+                                                          cfault(f1), creg_mode(sc.get("reg_mode", "plain"), env_uri, sc.get("detail_uri")))
         elif leg["leg"] == "yield_result":
             r = sc["result"]
             single = r["kwargs"] is None and len(r["args"]) == 1
@@ -473,6 +495,10 @@ def judge(sc, res):
             rbox = box_of(B, False, env_uri)
             must_encrypt = sbox is not None
             call_enc = leg["encrypted"]
+            mode = sc.get("reg_mode", "plain")
+            want_reg = env_uri[:env_uri.rfind(".") + 1] if mode == "pattern" else env_uri
+            if leg.get("register_uri") != want_reg:
+                v.append((f"register/{mode}/wrong-URI-on-the-wire", f"REGISTER carried {leg.get('register_uri')!r}, expected {want_reg!r}"))
         elif name == "yield_result":
             r = sc["result"]
             sbox, fault = box_of(B, False, sc["uri"]), sc["fault2"]
@@ -560,7 +586,9 @@ def judge(sc, res):
             if got[0] == "class":               # surfaced as the class the caller registered for the URI: same payload expected
                 got = ["invoked", got[2], got[3]]
             if got[0] != "invoked" or got[1] != want[1] or sorted(map(tuple, got[2])) != sorted(map(tuple, want[2])):
-                v.append((f"{where}/roundtrip", f"sent {want}, the matching peer got {got}"))
+                mode = sc.get("reg_mode", "plain") if name == "call_invocation" else "plain"
+                v.append((f"{where}/roundtrip" + (f"/registered-via-{mode}" if mode != "plain" else ""),
+                          f"sent {want}, the matching peer got {got}" + (f" (procedure registered via {mode})" if mode != "plain" else "")))
     return v
 
 
